@@ -43,6 +43,13 @@ TOLERATED = {
 }
 
 
+def _orient(t):
+    """one spelling for a comparison of two arguments: `next <= val` is `val >= next`"""
+    if tag(t) == "cmp" and len(t) == 4 and tag(t[2]) == "arg" and tag(t[3]) == "arg" and t[2][1] > t[3][1] and t[1] in ("Le", "Ge", "Lt", "Gt", "Eq", "Ne"):
+        return ("cmp", {"Le": "Ge", "Ge": "Le", "Lt": "Gt", "Gt": "Lt", "Eq": "Eq", "Ne": "Ne"}[t[1]], t[3], t[2])
+    return t
+
+
 class K:
     """canonicaliser of terms across the two flavours"""
 
@@ -161,7 +168,7 @@ class K:
             if cb is not None and depth < 20:
                 ev2, r2 = self.ctx.eval(cb, no_inline=NOINLINE)
                 ret = term_map(r2.ret, lambda y: ("arg", y[1] - 1) if tag(y) == "param" and y[1] >= 1 else None)      # arguments by position, not by name
-                return ("closure", repr(K(r2, cb, self.ctx).t(ret, depth + 1)), tuple(self.t(u, depth + 1) for u in x[2]))
+                return ("closure", repr(_orient(K(r2, cb, self.ctx).t(ret, depth + 1))), tuple(self.t(u, depth + 1) for u in x[2]))
             return ("closure", re.sub(r"\b(un)?sync::", "", x[1]))
         if tg == "fn" and self.ctx is not None and depth < 20:
             # a small function used as a value (`find_position(n, O::goes_before)`) is what it computes, like a closure without captures
@@ -169,7 +176,7 @@ class K:
             if fb is not None and len(fb.blocks) <= 3:
                 ev2, r2 = self.ctx.eval(fb, no_inline=NOINLINE)
                 ret = term_map(r2.ret, lambda y: ("arg", y[1]) if tag(y) == "param" else None)
-                return ("closure", repr(K(r2, fb, self.ctx).t(ret, depth + 1)), ())
+                return ("closure", repr(_orient(K(r2, fb, self.ctx).t(ret, depth + 1))), ())
         return tuple(self.t(y, depth + 1) if isinstance(y, (tuple, Lin)) else (re.sub(r"\b(un)?sync::", "", y) if isinstance(y, str) else y) for y in x)
 
     def pe(self, p, depth):
@@ -473,13 +480,15 @@ def summarise(ctx, b, flavour, inline=()):
         if e.get("subst") and items.cur is not None:
             # the entry stands for one alternative of a merged dispatch: its exact condition is the one of the paths over that alternative's edge, and
             # speaks about that alternative
-            (origin, jb), = e["extra_edges"][:1]
-            d_ = block_dnf_forced(e["bb"], ((jb, origin),))
+            d_ = block_dnf_forced(e["bb"], tuple(sorted(set((jb, origin) for origin, jb in e["extra_edges"]))))
             if d_ is None:
                 items.cur = None
             else:
                 kf, kt = k.t(e["subst"][0]), k.t(e["subst"][1])
                 items.cur = [frozenset(term_map(l, lambda x: kt if x == kf else None) for l in c) for c in d_]
+        elif e.get("extra_edges") and items.cur is not None and e is top:
+            # the entry stands for the paths over particular edges into a join (one exit of an inlined helper whose result is returned as it is)
+            items.cur = block_dnf_forced(e["bb"], tuple(sorted(set((jb, origin) for origin, jb in e["extra_edges"]))))
         items.cur_extra = frozenset()
         kind = e["kind"]
         if kind == "ret0" and not e["chain"]:
